@@ -1,10 +1,19 @@
 package main
 
+import "fmt"
+
 func init() { props["C29"] = checkC29 }
 
 func checkC29(r *Run) {
-	r.Explain = "C29: (R1) every arithmetic step of PageIndex.Cal is wrap-free for every page number (interval arithmetic with the constructor invariant size in [0,100], the quotient-bound idiom for size*(page-1), and n bounded by a slice length at its call sites); (R2) Cal returns (0,0,pages) exactly for pages beyond the last, else start=size*(page-1), end=min(start+size, n), pages=ceil(n/size); NewPageIndex enforces 1<=size<=100, page>=1; Pagination slices exactly items[start:end] and takes the everything shortcut only for a nil page."
+	r.Explain = "(R3) no function of the query path (visor, historydb) returns a slice built while ranging over a map without sorting it (stable order between page requests); C29: (R1) every arithmetic step of PageIndex.Cal is wrap-free for every page number (interval arithmetic with the constructor invariant size in [0,100], the quotient-bound idiom for size*(page-1), and n bounded by a slice length at its call sites); (R2) Cal returns (0,0,pages) exactly for pages beyond the last, else start=size*(page-1), end=min(start+size, n), pages=ceil(n/size); NewPageIndex enforces 1<=size<=100, page>=1; Pagination slices exactly items[start:end] and takes the everything shortcut only for a nil page."
 	r.NotDec = "order and de-duplication of the underlying list (established where the list is built)"
+	// R3: the list that is paged has a stable order between requests: no function of the query path returns a
+	// slice assembled while ranging over a map without sorting it
+	nMap, leaks, poss := mapOrderLeaks(r.P, "visor/historydb.", "visor.")
+	for i, l := range leaks {
+		r.Check("C29-R3", l, r.P.Pos(poss[i].Pos()), false, "map iteration order differs from call to call: consecutive page requests slice different lists")
+	}
+	r.Check("C29-R3", "query-path functions that range over a map return sorted (or map-free) lists", "", nMap >= 5, fmt.Sprintf("%d functions with a map range inspected", nMap))
 	r.Check("C29-R1", "field invariant visor.PageIndex.size registered", "", r.P.RegisterFieldInvariant("visor.PageIndex.size"), "anchor")
 	r.Check("C29-R1", "parameter n of Cal bounded by its call sites", "", r.P.RegisterParamFromCallers("visor.PageIndex.Cal"), "anchor")
 	arithObligations(r, "C29-R1", "visor.PageIndex.Cal")
